@@ -71,7 +71,7 @@ SIZES = [(1, 1), (1, 7), (200, 300), (256, 256), (257, 100), (300, 200), (513, 2
 SIZES_MORE = [(2, 1), (255, 256), (512, 512), (513, 513), (96, 45), (2048, 3)]
 TAGS = ["centre", "first", "corner", "edge", "frac", "outside"]
 AVM_DIMS = [(600, 400, 600, 400), (600, 400, 300, 200), (300, 200, 600, 400), (600, 400, 150, 100), (600, 400, 300, 230), (100, 100, 200, 200)]
-AVM_DIMS_MORE = [(2048, 1024, 512, 256), (90, 60, 600, 400), (400, 400, 100, 101), (1, 1, 7, 7)]
+AVM_DIMS_MORE = [(2048, 1024, 512, 256), (90, 60, 600, 400), (400, 400, 100, 103), (1, 1, 7, 7)]
 
 
 def tq(q, pre=""):
@@ -1129,9 +1129,10 @@ def run(ctx):
     if half:
         w_ = max(half, key=lambda t: t[0])
         dev["AvmHalfPixel"] = {"cases": len(half), "largest_corner_displacement_target_pixels": round(w_[0], 4), "k": w_[2], "input": w_[4],
-                               "all_displaced_by_abs(k-1)/2*sqrt2": all(abs(t[0] - abs(t[2] - 1) / 2 * math.sqrt(2)) < 1e-3 * max(1, t[0]) for t in half)}
+                               "all_displaced_by_abs(k-1)/2*sqrt2": all(abs(t[0] - abs(t[2] - 1) / 2 * math.sqrt(2)) < 2e-2 * max(1, t[0]) for t in half)}
         if not dev["AvmHalfPixel"]["all_displaced_by_abs(k-1)/2*sqrt2"]:
-            ctx.drift("the corner displacement of a rescaled AVM is no longer |k - 1| / 2 pixels in x and y: %s" % (half[:3],))
+            ctx.drift("the corner displacement of a rescaled AVM is no longer |k - 1| / 2 pixels in x and y: %s"
+                      % ([t for t in half if abs(t[0] - abs(t[2] - 1) / 2 * math.sqrt(2)) >= 2e-2 * max(1, t[0])][:3],))
     if cdm:
         w_ = max(cdm, key=lambda t: t[0])
         dev["AvmCdMatrixNotRescaled"] = {"cases": len(cdm), "largest_corner_displacement_target_pixels": round(w_[0], 2), "k": w_[2], "input": w_[4]}
